@@ -9,6 +9,7 @@
 //	sched:*  Engine B (verif/sched): 2-3 threads on colliding keys of the four lock-protected tables above, every mutex
 //	         operation a scheduling point, all schedules with <= 2 (thorough 3) preemptions, same oracle at the end
 //	submgr   subscriber.Manager with dual-stack sessions (MAC, IPv4, IPv6 keys) and an address backend that can fail per family
+//	memstore allocator.MemoryAllocationStore with two pools and prefixes sharing a base address (reverse index keyed by base address)
 //	circuit  ebpf.MakeCircuitIDKey / HashCircuitID over a bounded-exhaustive family of circuit-ids (Engine D)
 //
 // Oracle after every operation: each key in use identifies at most one subscriber;
@@ -51,6 +52,8 @@ func models(run *report.Run) []*explore.Model {
 	ms = append(ms, &explore.Model{Name: "pppoe", Config: "wrap: ids 1,2 first then counter=65535, macs=A,B creates<=5", New: func() explore.System { return newPppoeWrapSys(2, 65535, 5) },
 		Depth: pick(6, 9), Exec: bubble, Classify: classify, Budget: 5 * time.Minute})
 	ms = append(ms, &explore.Model{Name: "submgr", Config: "dual-stack, faulty backend", New: func() explore.System { return newDsSys(2) },
+		Depth: pick(4, 6), Classify: classify, Budget: 5 * time.Minute})
+	ms = append(ms, &explore.Model{Name: "memstore", Config: "2 pools x 2 subscribers x 4 prefixes (a /56 and a /64 share a base address)", New: func() explore.System { return newMpSys() },
 		Depth: pick(4, 6), Classify: classify, Budget: 5 * time.Minute})
 	ms = append(ms, idxModels(pick(5, 8), pick(2, 3))...)
 	return ms
@@ -145,6 +148,10 @@ func classify(v *report.Violation) {
 		(strings.HasPrefix(last, "Remove(") || strings.HasPrefix(last, "Cleanup(")):
 		v.Class = "C20-K3-pppoe-mac-index-single-valued"
 	// labels (NOT known findings)
+	case v.Part == "sched:submgr Terminate(e1)|Assign(e2,address of e1)" && v.Kind == "reverse-missing" && strings.HasSuffix(v.Site, "/byIP"):
+		v.Class = "fix:C20-F10 TerminateSession deletes index entries that already belong to another session"
+	case v.Part == "sched:submgr Terminate(e1)|Assign(e1,other address)" && v.Kind == "reverse-dangling" && strings.HasSuffix(v.Site, "/byIP"):
+		v.Class = "fix:C20-F11 AssignAddress indexes an address for a session terminated meanwhile"
 	case part == "vlan" && v.Site == "AllocateWithSTag" && v.Kind == "range" && strings.HasSuffix(last, ",99)"):
 		v.Class = "fix:C20-F1 AllocateWithSTag accepts an S-TAG outside the range"
 	case part == "vlan" && v.Site == "LoadFromStore" && (v.Kind == "unique" || v.Kind == "range" || v.Kind == "reverse"):
